@@ -22,7 +22,7 @@ iv = <<op, adr, dat, dv_1 .. dv_n>>   op: 0 idle, 1 write, 2 read;  dv_r: device
 o  = <<master dat_r, bank_1 dat_r .. bank_nb dat_r>> \\o per register <<v, re, we, f, r2>>
      v: storage / status / CSR.r;  f: field signals packed in declaration order;  r2: CSRStatus.r (status_rw)
 """
-from migen import Module, Signal, Cat, Constant, Memory
+from migen import Module, Signal, Cat, Constant, Memory, If, Mux
 from migen.fhdl.bitcontainer import log2_int
 
 from litex.soc.interconnect import csr_bus
@@ -56,7 +56,7 @@ def _make_reg(r, idx):
 
 
 def build(spec):
-    """real construction: objects -> CSRBankArray -> interconnect.  Returns (top, master, array, regs)
+    """real construction: objects -> CSRBankArray -> interconnect.  Returns (top, masters, array, regs)
     where regs = [(bank index, reg spec, real object)] in creation order.  Raises whatever the
     repository code raises (e.g. ValueError on a location conflict)."""
     w = spec["w"]
@@ -68,22 +68,26 @@ def build(spec):
     addr = {}
     for bi, b in enumerate(spec["banks"]):
         ob = _Obj()
-        for r in b["regs"]:
+        sub = _Obj() if b.get("nest") is not None else None     # registers from position `nest` on live in a child
+        for k, r in enumerate(b["regs"]):
             idx = len(regs) + 1
             reg = _make_reg(r, idx)
-            setattr(ob, "r%d" % idx, reg)
+            setattr(sub if sub is not None and k >= b["nest"] else ob, "r%d" % idx, reg)
             regs.append((bi, r, reg))
+        if sub is not None:
+            ob.sub = sub
         setattr(src, "b%d" % bi, ob)
         addr["b%d" % bi] = b["address"]
     array = csr_bus.CSRBankArray(src, lambda name, mem: addr[name], data_width=w, address_width=aw,
                                  paging=spec["paging"], ordering=spec["ordering"])
     top.submodules += array
-    master = csr_bus.Interface(data_width=w, address_width=aw)
-    if spec.get("ic", "shared") == "shared":
-        top.submodules += csr_bus.InterconnectShared([master], array.get_buses())
+    ic = spec.get("ic", "shared")
+    masters = [csr_bus.Interface(data_width=w, address_width=aw) for _ in range(2 if ic == "shared2" else 1)]
+    if ic in ("shared", "shared2"):
+        top.submodules += csr_bus.InterconnectShared(masters, array.get_buses())
     else:
-        top.submodules += csr_bus.Interconnect(master, array.get_buses())
-    return top, master, array, regs
+        top.submodules += csr_bus.Interconnect(masters[0], array.get_buses())
+    return top, masters, array, regs
 
 
 def layout_of(array, regs):
@@ -101,12 +105,25 @@ def layout_of(array, regs):
 
 
 def make(spec):
-    top, master, array, regs = build(spec)
+    top, masters, array, regs = build(spec)
     w = spec["w"]
-    op, adr, dat = Signal(2), Signal(len(master.adr)), Signal(w)
-    top.comb += [master.adr.eq(adr), master.we.eq(op == 1), master.re.eq(op == 2), master.dat_w.eq(dat)]
+    op, adr, dat = Signal(2), Signal(len(masters[0].adr)), Signal(w)
+    if len(masters) == 1:
+        master = masters[0]
+        top.comb += [master.adr.eq(adr), master.we.eq(op == 1), master.re.eq(op == 2), master.dat_w.eq(dat)]
+        datr = master.dat_r
+    else:
+        # two masters on InterconnectShared: operations on even addresses are issued by master 0, on odd
+        # addresses by master 1 (the other one idles with all outputs low); the read data is taken from the
+        # master that issued the previous cycle's operation
+        for j, m in enumerate(masters):
+            mine = adr[0] == j
+            top.comb += If(mine, m.adr.eq(adr), m.we.eq(op == 1), m.re.eq(op == 2), m.dat_w.eq(dat))
+        pm = Signal(name="harness_prev_master")
+        top.sync += pm.eq(adr[0])
+        datr = Mux(pm, masters[1].dat_r, masters[0].dat_r)
     ins = [op, adr, dat]
-    outs = [master.dat_r] + [rmap.bus.dat_r for name, csrs, mapaddr, rmap in array.banks]
+    outs = [datr] + [rmap.bus.dat_r for name, csrs, mapaddr, rmap in array.banks]
     zero = Constant(0)
     for idx, (bi, r, reg) in enumerate(regs):
         kind = r["kind"]
@@ -168,7 +185,7 @@ def tla_cfg(spec):
                          "dvs": list(r.get("dvs", []))})
     rec["regs"] = regs
     try:
-        top, master, array, robjs = build(spec)
+        top, masters, array, robjs = build(spec)
         rec["built"] = 1
         rec["error"] = ""
         rec["map"] = layout_of(array, robjs)
@@ -191,10 +208,11 @@ def F(size, offset=None, reset=0, pulse=0):
 
 def S(w, ordering, banks, paging=16, npages=4, ic="shared", dats=None, tag=""):
     spec = {"w": w, "ordering": ordering, "paging": paging, "npages": npages, "ic": ic,
-            "banks": [{"address": a, "regs": list(rs)} for a, rs in banks],
+            "banks": [dict({"address": b[0], "regs": list(b[1])}, **({"nest": b[2]} if len(b) > 2 else {}))
+                      for b in banks],
             "dats": list(range(1 << w)) if dats is None else list(dats), "hdat": (1 << min(w, 30)) - 1}
     # tags used by known-finding signatures
-    spec["atomic_multiword"] = int(any("atomic" in r["kind"] and r_size(r) > w for a, rs in banks for r in rs))
+    spec["atomic_multiword"] = int(any("atomic" in r["kind"] and r_size(r) > w for b in banks for r in b[1]))
     if tag:
         spec["tag"] = tag
     return spec
@@ -214,12 +232,12 @@ def configs(tier):
         # device-writable storage next to a driven status
         add(S(2, o, [(2, [R("storage_dev", 3, reset=1, dvs=[0, 3, 6]), R("status", 3, dvs=[0, 5, 2])])]))
         # fields: offsets with a gap, reset composition, a pulse bit
-        add(S(2, o, [(1, [R("storage", 4, fields=[F(1, pulse=1), F(2, offset=2, reset=2)]),
+        add(S(2, o, [(1, [R("storage", 5, fields=[F(2, reset=2), F(1, pulse=1), F(1, offset=4, reset=1)]),
                           R("status", 3, fields=[F(1), F(1, offset=2)], dvs=[0, 1, 2, 3])])]))
         # two banks on one bus, fixed locations (a hole filled by a reserved CSR), a writable status
-        add(S(2, o, [(1, [R("storage", 2, reset=1), R("status_rw", 3, dvs=[0, 6], n=0)]),
+        add(S(2, o, [(1, [R("storage", 2, reset=1), R("status_rw", 3, dvs=[0, 6], n=0)], 1),
                      (3, [R("storage", 1, n=3), R("status", 2, reset=2)])],
-              ic="shared" if o == "big" else "plain"))
+              ic="shared2" if o == "big" else "plain"))
         # 4-bit words, 9-bit register (4+4+1)
         add(S(4, o, [(0, [R("storage", 9, reset=0x1a5)])], dats=D4, paging=16))
     if tier == "thorough":
@@ -230,12 +248,42 @@ def configs(tier):
                   npages=2))
             add(S(4, o, [(1, [R("storage_atomic", 6, reset=0x2b), R("status", 5, dvs=[0, 0x15, 0x0a])])], dats=D4))
             add(S(4, o, [(2, [R("storage_dev", 5, dvs=[0, 0x16]), R("status_rw", 5)])], dats=[0, 5, 10]))
-            add(S(2, o, [(0, [R("storage", 3), R("storage", 3, reset=7)]), (1, [R("storage_atomic", 4)]),
-                         (2, [R("status", 5, dvs=[0, 21, 10])])], dats=[0, 1, 2]))
+            add(S(2, o, [(0, [R("storage", 2), R("storage", 3, reset=5)], 0), (1, [R("storage_atomic", 3)]),
+                         (2, [R("status", 3, dvs=[0, 5])])], dats=[1, 2], ic="shared2"))
             add(S(2, o, [(1, [R("storage", 5, fields=[F(2, reset=1), F(1, pulse=1), F(2, reset=3)]),
                               R("status", 4, fields=[F(2, offset=1), F(1)], dvs=[0, 1, 2, 4, 7])])]))
-            add(S(2, o, [(2, [R("storage", 1, n=1), R("storage", 2, n=5), R("storage", 3), R("status", 1, dvs=[0, 1])])],
+            add(S(2, o, [(1, [R("storage", 1, n=1), R("storage", 2, n=5), R("storage", 3), R("status", 1, dvs=[0, 1])])],
                   paging=32, npages=2, dats=[0, 3, 1]))
+    return L
+
+
+def sweep_configs():
+    """thorough tier: every kind x size in {1, w, w+1, 2w, 2w+1} x ordering x bus word in {2, 4} as a
+    single-register bank (layout-dependent faults: last word narrower than the bus, ordering, atomic slices)"""
+    L = []
+    pat = 0b1011010110
+    for w in (2, 4):
+        for o in ("big", "little"):
+            k = 0
+            for kind in ("csr", "storage", "storage_atomic", "storage_dev", "storage_atomic_dev", "status",
+                         "status_rw"):
+                for size in sorted({1, w, w + 1, 2 * w, 2 * w + 1}):
+                    if kind == "csr" and size > w:
+                        continue
+                    if "atomic" in kind and size <= w:
+                        continue                       # same netlist as the non-atomic register
+                    m = (1 << size) - 1
+                    dats = None if w == 2 else ([6, 9] if "atomic" in kind else [0, 6, 9, 15])
+                    if kind.endswith("dev"):
+                        dvs = sorted({pat & m, (pat >> 1) & m})
+                    elif kind in ("status", "status_rw", "csr"):
+                        dvs = sorted({0, pat & m, (pat >> 3) & m})
+                    else:
+                        dvs = []
+                    k += 1
+                    spec = S(w, o, [(k % 4, [R(kind, size, reset=(pat >> 2) & m, dvs=dvs)])], dats=dats,
+                             ic=("shared", "plain")[k % 2])
+                    L.append((spec, tla_cfg(spec)))
     return L
 
 
@@ -251,7 +299,9 @@ def case_spec(nwords, locs, ordering, w=2):
         else:
             kind = ("storage", "status_rw", "storage_atomic", "status")[(i + len(locs)) % 4]
         regs.append(R(kind, 1 if nw == 1 else (nw - 1) * w + 1, n=None if n < 0 else n))
-    return S(w, ordering, [(1, regs)], paging=64, npages=2)
+    spec = S(w, ordering, [(1, regs)], paging=64, npages=2)
+    spec["free"] = 1          # no input alphabet needed: only the construction is judged
+    return spec
 
 
 # ---------------------------------------------------------------------------------------- long runs (T-mode)
@@ -299,8 +349,11 @@ def random_spec(rnd, w):
         if rnd.random() < 0.3:
             k = rnd.randrange(len(regs))
             regs[k]["n"] = rnd.choice([x for x in range(len(regs) + 3) if x != len(regs)])
-        banks.append((p, regs))
-    spec = S(w, ordering, banks, paging=0x800, npages=32, ic=rnd.choice(["shared", "plain"]), dats=[0])
+        if len(regs) > 1 and rnd.random() < 0.3:
+            banks.append((p, regs, rnd.randrange(len(regs))))     # some registers in a nested AutoCSR child
+        else:
+            banks.append((p, regs))
+    spec = S(w, ordering, banks, paging=0x800, npages=32, ic=rnd.choice(["shared", "plain", "shared2"]), dats=[0])
     spec["free"] = 1
     return spec
 
@@ -340,3 +393,80 @@ def random_schedule(rnd, spec, cfg, n):
                 dv.append(0)
         sched.append([op, adr, dat] + dv)
     return sched
+
+
+# ---------------------------------------------------------------------------------------- csr_bus.SRAM windows
+class _MemObj(Module, AutoCSR):
+    """an object owning a memory: CSRBankArray creates a csr_bus.SRAM window for it (and, when the memory
+    is larger than a page, a bank holding the window's page register)"""
+    def __init__(self, mw, depth, init, ro):
+        self.m = Memory(mw, depth, init=list(init), name="m")
+        self._ro = ro
+
+    def get_memories(self):
+        return [(True, self.m)] if self._ro else [self.m]
+
+
+def build_sram(spec):
+    w = spec["w"]
+    pb = log2_int(spec["paging"] // 4)
+    aw = pb + log2_int(spec["npages"])
+    top = Module()
+    src = Module()
+    src.mo = _MemObj(spec["mw"], spec["depth"], spec["init"], bool(spec.get("ro")))
+    array = csr_bus.CSRBankArray(src, lambda name, mem: spec["sadr"] if mem is not None else spec["badr"],
+                                 data_width=w, address_width=aw, paging=spec["paging"],
+                                 ordering=spec.get("ordering", "big"))
+    top.submodules += array
+    master = csr_bus.Interface(data_width=w, address_width=aw)
+    top.submodules += csr_bus.InterconnectShared([master], array.get_buses())
+    return top, master, array
+
+
+def make_sram(spec):
+    top, master, array = build_sram(spec)
+    op, adr, dat = Signal(2), Signal(len(master.adr)), Signal(spec["w"])
+    top.comb += [master.adr.eq(adr), master.we.eq(op == 1), master.re.eq(op == 2), master.dat_w.eq(dat)]
+    mmap = array.get_mmaps()[0]
+    pg = mmap._page.storage if mmap._page is not None else Constant(0)
+    return top, [op, adr, dat], [master.dat_r, mmap.bus.dat_r, pg]
+
+
+def sram_cfg(spec):
+    top, master, array = build_sram(spec)
+    mmap = array.get_mmaps()[0]
+    pb = log2_int(spec["paging"] // 4)
+    pgbits, pgadr = 0, -1
+    if mmap._page is not None:
+        pgbits = len(mmap._page.storage)
+        name, csrs, mapaddr, rmap = array.banks[0]
+        scs = mmap._page.get_simple_csrs()
+        assert len(scs) == 1
+        pgadr = (mapaddr << pb) | [id(x) for x in rmap.simple_csrs].index(id(scs[0]))
+    return {"w": spec["w"], "pb": pb, "npages": spec["npages"], "sadr": spec["sadr"], "mw": spec["mw"],
+            "depth": spec["depth"], "ro": int(bool(spec.get("ro"))), "init": list(spec["init"]),
+            "pgbits": pgbits, "pgadr": pgadr, "dats": list(spec["dats"]), "hdat": (1 << spec["w"]) - 1}
+
+
+def sram_configs(tier):
+    L = []
+
+    def add(w, mw, depth, paging, ro=0, dats=None, sadr=1, badr=2, npages=4, ordering="big"):
+        init = [(((i + 1) * 0x9d) >> 1 ^ (i + 1)) & ((1 << mw) - 1) for i in range(depth)]
+        spec = {"kind": "sram", "w": w, "mw": mw, "depth": depth, "paging": paging, "npages": npages, "sadr": sadr,
+                "badr": badr, "ro": ro, "init": init, "dats": dats if dats is not None else list(range(1 << w)),
+                "ordering": ordering}
+        L.append((spec, sram_cfg(spec)))
+    add(2, 2, 4, 16)                              # memory word = bus word, one page
+    add(2, 2, 2, 16, ro=1, sadr=3)                # read-only
+    add(2, 4, 2, 16, dats=[1, 2])                 # sub-word staging (2 chunks per word)
+    add(2, 4, 2, 8, dats=[1, 2], sadr=0, badr=3)  # paged: one memory word per page
+    add(2, 3, 2, 16, dats=[1, 3])                 # top chunk narrower than the bus
+    if tier == "thorough":
+        add(2, 2, 4, 8, dats=[1, 2], sadr=2, badr=1)      # paged, word = bus word
+        add(4, 8, 2, 16, dats=[6, 9])
+        add(2, 8, 2, 16, dats=[1])                        # 4 chunks per word
+        add(2, 4, 4, 8, dats=[1], sadr=0, badr=1, ordering="little")   # 2-bit page register
+        add(2, 4, 2, 16, ro=1, dats=[1, 2])
+        add(2, 3, 2, 8, dats=[1, 3], sadr=3, badr=0)
+    return L
